@@ -1197,6 +1197,11 @@ emittype(struct type *t)
 	}
 	fputs(" = { ", stdout);
 	for (m = t->u.structunion.members, off = 0; m;) {
+		if (m->type->kind == TYPEARRAY && m->type->incomplete) {
+			/* a flexible array member occupies no storage */
+			m = m->next;
+			continue;
+		}
 		if (t->kind == TYPESTRUCT) {
 			/* look for a subsequent member with a larger storage unit */
 			for (other = m->next; other; other = other->next) {
